@@ -66,7 +66,7 @@ func run(r *core.Run) {
 			"1 and 2 node values and the grid as in the quick tier; 3 node values: full product of every width/length/float-size/definite/indefinite form of every node (strings: one chunk and the middle two chunk split); 4 node values: the shortest encoding"),
 		"truncation":    "every proper byte prefix (including the empty input) of every encoding <= 64 bytes through pkg/decode directly; additionally through from_F for the one node values and the first encoding of the two node values",
 		"drivers":       "binary formats: every intact encoding through a jq driver that is the body of from_F (_decode + raise on ._error) followed by torepr; the documented from_F itself for the one node values, the grid and the first encoding of the two node values; text formats always through from_F",
-		"element_order": "containers of n pairwise distinct integers in a non monotonic order (element i = (37 i + 11) mod 1009; object keys k000, k001, ...) for n in {2,3,9,10,11,12,19,20,21,99,100,101,110,111,255,256,257} x {array, object} x nesting {alone, below an object key: all n; inside an array, middle of three elements of an array below an object key: n <= 111; next to a second container one element longer in an array and in an object, inside an object inside an array: n <= 21}, filtered by what the format can express; encodings: members in their shortest form, n <= 21: every container header form of the format and every form of the enclosing nodes one at a time (alone, below a key, inside an array), n <= 111 alone: the minimal, 4 byte and indefinite header forms, otherwise the shortest encoding; intact decode through jq and the trailing data cases through pkg/decode",
+		"element_order": "containers of n pairwise distinct integers in a non monotonic order (element i = (37 i + 11) mod 1009; object keys k000, k001, ...) for n in {2,3,9,10,11,12,19,20,21,99,100,101,110,111,255,256,257} x {array, object} x nesting {alone, below an object key: all n; inside an array, middle of three elements of an array below an object key: n <= 111; next to a second container one element longer in an array and in an object, inside an object inside an array: n <= 21}, filtered by what the format can express; encodings: members in their shortest form; n <= 21 alone, below a key and inside an array: every container header form of the format and the forms of the enclosing nodes one at a time; otherwise the shortest encoding; intact decode through jq and the trailing data cases through pkg/decode",
 		"trailing_data": "one 0x00 byte, and a second copy of the value, after every encoding: direct decode (text: must fail; binary: exactly one root gap field over the extra bits and an otherwise identical tree) and, for the one node values, the grid and the first encoding of the two node values (inputs up to 4 KiB), through jq (torepr unchanged, ._gap fields, tovalue of the tree)",
 	})
 	only := os.Getenv("VERIF_ONLY")
